@@ -5,7 +5,7 @@ only by a trace, one constant in first position three times, a Data parameter re
 value.  Each module carries several entry functions:  m["entries"] = [(name, sig, [args...])]."""
 import itertools
 import aikengen as ag
-from aikengen import INT, BOOL, BYTES, DATA, TList, TTuple, TPair, TAdt, TOption, TFn
+from aikengen import INT, BOOL, BYTES, DATA, STRING, TList, TTuple, TPair, TAdt, TOption, TFn
 
 V = lambda x: {"k": "var", "x": x}
 I = lambda n: {"k": "int", "n": n} if n >= 0 else {"k": "neg", "e": {"k": "int", "n": -n}}
@@ -222,6 +222,14 @@ def family_repeated_constant():
     m.entry([INT, INT, INT], BYTES, bcall("append_bytearray", bcall("append_bytearray", ts[0], ts[1]), ts[2]), igrid)
     ts = [bcall("slice_bytearray", a, I(2), B(1, 2, 3, 4)) for a in AI]
     m.entry([INT, INT, INT], BYTES, bcall("append_bytearray", bcall("append_bytearray", ts[0], ts[1]), ts[2]), igrid)
+    # and / or / xor: three arguments (padding flag, bytes, bytes); the same constant bytes three times, the flag not a constant
+    for f in ("and_bytearray", "or_bytearray", "xor_bytearray"):
+        for pos in (1, 2):
+            ts = []
+            for a in A:
+                flag = binop("==", bcall("length_of_bytearray", a), I(1))
+                ts.append(bcall(f, flag, B(240, 15, 1), a) if pos == 1 else bcall(f, flag, a, B(240, 15, 1)))
+            m.entry([BYTES, BYTES, BYTES], BYTES, bcall("append_bytearray", bcall("append_bytearray", ts[0], ts[1]), ts[2]), bgrid)
     ts = [bcall("length_of_bytearray", bcall("append_bytearray", B(9), a)) for a in A]
     m.entry([BYTES, BYTES, BYTES], INT, binop("*", binop("*", ts[0], ts[1]), ts[2]), bgrid)
     mods.append(m.done("repeated-constant"))
@@ -400,9 +408,45 @@ def family_generics():
     return [m.done("generics")]
 
 
+# ---------------------------------------------------------------- 9. strings stored in Data-encoded containers and read back
+def family_strings():
+    m = Mod()
+    S = lambda t: {"k": "str", "cs": [ord(c) for c in t]}
+    bcall = lambda f, *a: {"k": "bcall", "f": f, "args": list(a)}
+    named = lambda l, w: {"k": "con", "ty": "Named", "i": 0, "args": [l, w]}
+    NT = TAdt("Named")
+    grid = [[DB(), DI(1)], [DB(97), DI(2)], [DB(104, 105), DI(0)], [DB(97, 34, 98), DI(-5)]]
+    A, W = bcall("decode_utf8", V("arg0")), V("arg1")      # a bare String does not travel as Data: it comes in as bytes and leaves as bytes
+    out = lambda e: bcall("encode_utf8", e)
+    lab = lambda e: {"k": "field", "e": e, "i": 1, "ty": NT}
+    E = lambda ret, body: m.entry([BYTES, INT], ret, body, grid)
+    # record field read back, used as a string
+    E(BYTES, out(bcall("append_string", lab(named(A, W)), S("!"))))
+    E(BOOL, binop("==", lab(named(bcall("append_string", A, S("x")), W)), S("ax")))
+    E(BYTES, out(lab(named(A, W))))
+    # through a let-bound record, a list, a tuple, an option, a pattern
+    E(BYTES, out({"k": "let", "x": "r", "ty": NT, "e": named(A, W), "body": bcall("append_string", lab(V("r")), lab(V("r")))}))
+    E(BYTES, out({"k": "when", "s": {"k": "list", "es": [A, S("z")]}, "sty": TList(STRING), "cs": [
+        {"p": {"p": "list", "ps": [{"p": "var", "x": "h"}], "tail": "discard"}, "b": bcall("append_string", V("h"), S("?"))},
+        {"p": {"p": "discard"}, "b": S("")}]}))
+    E(BYTES, out({"k": "tupidx", "e": {"k": "tuple", "es": [bcall("append_string", A, A), W]}, "i": 1, "ty": TTuple(STRING, INT)}))
+    E(BYTES, out({"k": "when", "s": {"k": "con", "ty": "Option", "i": 0, "args": [A]}, "sty": TOption(STRING), "cs": [
+        {"p": {"p": "con", "ty": "Option", "i": 0, "args": [{"p": "var", "x": "s"}]}, "b": bcall("append_string", S("<"), V("s"))},
+        {"p": {"p": "con", "ty": "Option", "i": 1, "args": []}, "b": S("none")}]}))
+    E(BYTES, out({"k": "letp", "p": {"p": "con", "ty": "Named", "i": 0, "args": [{"p": "var", "x": "l"}, {"p": "var", "x": "w"}]}, "ty": NT,
+                  "e": named(A, W), "body": {"k": "if", "c": binop(">", V("w"), I(0)), "t": V("l"), "e": bcall("append_string", V("l"), S("-"))}}))
+    # containers with strings travel as Data: cast from Data and back
+    E(BYTES, out({"k": "cast", "x": "c", "ty": NT, "e": todata(NT, named(A, W)), "body": bcall("append_string", lab(V("c")), S("."))}))
+    E(TList(STRING), {"k": "cast", "x": "c", "ty": TList(STRING), "e": todata(TList(STRING), {"k": "list", "es": [A, S("b")]}), "body": V("c")})
+    E(NT, named(bcall("append_string", A, S("+")), binop("+", W, I(1))))
+    E(TTuple(STRING, INT), {"k": "tuple", "es": [A, W]})
+    E(INT, bcall("length_of_bytearray", bcall("encode_utf8", bcall("append_string", lab(named(A, W)), S("abc")))))
+    return [m.done("strings")]
+
+
 def all_families():
     return family_expect_list() + family_cast() + family_trace_only() + family_repeated_constant() + family_data_param() + family_recursion() + \
-        family_strictness() + family_generics()
+        family_strictness() + family_generics() + family_strings()
 
 
 # ---------------------------------------------------------------- ill-typed table (C06): a value of T1 where T2 is required
